@@ -81,8 +81,10 @@ EvImport ==
                 /\ imported' = imported \cup {id}
                 /\ owed' = owed \ {<<f.ctx, f.topic>>}
                 /\ lost' = lost \ {<<f.ctx, f.topic>>}
-           ELSE UNCHANGED <<g, imported, owed, lost>>
-  /\ UNCHANGED <<b, met, src, known>>
+                \* whatever was owed to the collector under this id concerned the frame that was there before
+                /\ met' = IF id \in Present(g) /\ g.acc[id] = f THEN met ELSE met \ {id}
+           ELSE UNCHANGED <<g, imported, owed, lost, met>>
+  /\ UNCHANGED <<b, src, known>>
 
 EvRemove ==
   /\ Is("remove")
